@@ -216,6 +216,8 @@ class SymInt(object):
         return ite(self < 0, -self, self)
 
     def __mul__(self, o):
+        if isinstance(o, list) and self.conc() is None:
+            return LazyList(o, self)
         if not isinstance(o, (int, SymInt, SymBool)):
             return NotImplemented
         if type(o) is int:
@@ -466,6 +468,51 @@ class SymInt(object):
         if byteorder != 'big':
             out.reverse()
         return SymBytes(out)
+
+
+class LazyList(list):
+    """``[x] * n`` with symbolic n: grows on demand; the surrounding loop
+    (sym_range) decides the real length by forking on ``i < n``"""
+
+    def __init__(self, pattern, n):
+        list.__init__(self)
+        self._pattern = list(pattern)
+        self._n = n
+
+    def __setitem__(self, i, v):
+        if isinstance(i, (int, SymInt)) and not isinstance(i, bool):
+            i = int(i)
+            while len(self) <= i:
+                if not self._pattern:
+                    raise IndexError("list assignment index out of range")
+                list.extend(self, self._pattern)
+        list.__setitem__(self, i, v)
+
+
+def sym_range(*a):
+    """``range`` for module globals of analysed code: a symbolic stop value is
+    not concretised up front; each iteration forks on ``i < stop``"""
+    if not any(isinstance(x, (SymInt, SymBool)) for x in a):
+        return range(*a)
+    if len(a) == 1:
+        start, stop, step = 0, a[0], 1
+    elif len(a) == 2:
+        start, stop, step = a[0], a[1], 1
+    else:
+        start, stop, step = a
+    if isinstance(start, (SymInt, SymBool)):
+        start = int(start)
+    if isinstance(step, (SymInt, SymBool)):
+        step = int(step)
+    if step == 0:
+        raise ValueError("range() arg 3 must not be zero")
+
+    def gen():
+        i = start
+        while bool(i < stop) if step > 0 else bool(i > stop):
+            yield i
+            i += step
+    return gen()
 
 
 def _mk_byte(b8, simp=True):
